@@ -17,6 +17,9 @@ type genFn func(tier string, rng *Rng)
 
 var props = map[string]genFn{}
 
+// cleanups run when main returns (temp directories of ops that need one).
+var cleanups []func()
+
 func main() {
 	if len(os.Args) < 3 {
 		fmt.Fprintln(os.Stderr, "usage: vharness <Cxx> <quick|thorough> [seed]  |  vharness replay <file>")
@@ -24,6 +27,11 @@ func main() {
 	}
 	out = bufio.NewWriterSize(os.Stdout, 1<<20)
 	defer out.Flush()
+	defer func() {
+		for _, f := range cleanups {
+			f()
+		}
+	}()
 	if os.Args[1] == "replay" {
 		replay(os.Args[2])
 		return
